@@ -29,6 +29,11 @@ CLAIMS = {
             "C10_dominated_is_refused on the model of the repaired import; exact correspondence with the real dirk binary's "
             "--import-slashing-protection on generated (database, file) pairs and import sequences; probes of the real rules service at every "
             "imported and prior value", "5 C10"),
+    "C11": ("Theorems C11_export_faithful (the exported record is exactly the highest signed slot / source / target, for every well-formed "
+            "history), C11_export_import_same_decisions (export -> import into an empty instance preserves every record, and equal records "
+            "answer every later history identically), C11_restart_identity, C11_codec (record format round trip for all int64 values; legacy "
+            "records through a gob oracle); correspondence on raw record bytes, the real binary's export and import, identical probes on "
+            "original and re-imported stores, restart, and legacy records produced by Go's gob encoder", "5 C11"),
 }
 
 
